@@ -109,5 +109,47 @@ def run(rep):
     ks = [bound_k("keep_le_plus_one"), bound_k("keep_lt_plus_two"), bound_k("keep_le_plus_two")]
     _expect(ks == [1, 1, 2], "A12 linear forms normalise the three filter bounds to +1, +1, +2 (got %s)" % ks)
     n += 1
+    # ---- round-2 primitives
+    tys = ("u8",)
+    _expect(open_tag_dispatches(p.fn(FX + "tag_closed"), tys) == [] and open_tag_dispatches(p.fn(FX + "tag_closed_chain"), tys) == [], "closed tag dispatch (match and if-chain)")
+    _expect(bool(open_tag_dispatches(p.fn(FX + "tag_open"), tys)), "open tag dispatch is reported")
+    n += 2
+    def early(fn):
+        return [e for (h, body, ne, ex) in iterator_loops(p.fn(FX + fn)) for e in ex]
+    _expect(not early("fold_all") and bool(early("fold_early_exit")), "loop early-exit detection")
+    n += 1
+    from .guards import guard_strength, check_zip_lengths, coarse_condition
+    def rel(fn):
+        gs = guard_strength(p, p.fn(FX + fn), GE, "Mismatch", {"c:compute"}, {"f:expected"})
+        return (sorted(gs["relations"]), sorted(coarse_condition(d) for b, d in gs["deciders"] if not d.startswith("disc:"))) if gs else None
+    _expect(rel("rel_ne") == (["ANeB"], []) and rel("rel_ne_negated_eq") == (["ANeB"], []), "guard relation normalises != and !(==): %s %s" % (rel("rel_ne"), rel("rel_ne_negated_eq")))
+    _expect(rel("rel_lt") is not None and rel("rel_lt")[0] == ["ALtB"], "weakened relation is seen as A<B: %s" % (rel("rel_lt"),))
+    _expect(rel("rel_conditional") is not None and rel("rel_conditional")[1] == ["cmp:f:len"], "bypass decider found: %s" % (rel("rel_conditional"),))
+    _expect(find_guard(p, p.fn(FX + "rel_ne_in_helper"), GE, "Mismatch", {"c:compute"}, {"f:expected"})[0] == "ok", "gate found in a helper called from a closure")
+    n += 4
+
+    class _R:
+        def __init__(self):
+            self.v = []
+
+        def check(self, cond, rule, key, *a, **k):
+            self.v.append((key, bool(cond)))
+            return cond
+    r_ = _R()
+    check_zip_lengths(r_, "x", p, p.fn(FX + "zip_no_length_gate"))
+    check_zip_lengths(r_, "x", p, p.fn(FX + "zip_with_length_gate"))
+    _expect([ok for k, ok in r_.v] == [False, True], "zip length gate: %s" % r_.v)
+    n += 1
+    f_ = p.fn(FX + "presence_via_ok_or")
+    g_ = f_.call_sites(r"BTreeMap.*::get$")[0]
+    pe = presence_edges(f_, g_)
+    _expect(bool(pe["absent"]) and bool(pe["present"]) and absent_blocks_mutation(f_, g_, f_.call_sites(r"Vec.*::push$")) == (True, None), "presence edges through ok_or(..)?")
+    n += 1
+    # helper-inlined view: a helper that is not in the frozen function list is inlined, its comparison becomes visible
+    from .inline import inline_view
+    v_, _pp = inline_view(p, p.fn(FX + "rel_ne_in_helper"), policy=lambda prog, caller, callee: callee.name == "extracted_check")
+    _expect(v_ is not p.fn(FX + "rel_ne_in_helper") and len(comparisons(v_)) >= 1 and any((v_.callee_of(t) or "").endswith("::compute") for b, t in v_.calls()),
+            "inline view splices the closure and inlines the helper")
+    n += 1
     rep.note("fixture self-check: %d primitive verdicts matched" % n)
     _done["ok"] = True
